@@ -95,7 +95,8 @@ def _second_run(obs, spec, second, lab, built, ctl, backend_kind, storage, stora
     o2 = Obs()
     o2.built = built
     if not storage_null:
-        probe = labtech.Lab(storage=storage, runner_backend='serial')
+        # what is on the storage now, seen through a NEW Storage object (not the one the Labs under test share)
+        probe = labtech.Lab(storage=make_storage(spec['lab'].get('storage', 'local'), d), runner_backend='serial')
         obs.cached_mid = {nid: probe.is_cached(task) for nid, task in built.shared.items()}
     context2 = {**base_ctx, **second.get('context_extra', {}), 'nonce': 'run2'}
     o2.context = context2
@@ -373,7 +374,7 @@ def execute_case(spec: dict, *, chooser: Optional[Chooser] = None, gated: bool =
                 pass
         # ---- post-state through the public API, from a fresh Lab on the same storage
         if not storage_null:
-            lab2 = labtech.Lab(storage=storage, runner_backend='serial')
+            lab2 = labtech.Lab(storage=make_storage(lab_spec.get('storage', 'local'), d), runner_backend='serial')      # a NEW Storage object, as a later session has
             obs.keys_after = sorted(lab2._storage.find_keys())
             for nid, task in built.shared.items():
                 obs.cached_after[nid] = lab2.is_cached(task)
